@@ -1,7 +1,6 @@
 -- Root of the `GeoVerif` library: models (import-free), lemma files (single-module Mathlib imports),
 -- property theorems.  `Generated/*` is written by tools/extract.py and imported by the property files that use it.
 import GeoVerif.Ops.All
-import GeoVerif.Lemmas.C08
 import GeoVerif.Lemmas.C09
 import GeoVerif.Lemmas.C10
 import GeoVerif.Lemmas.C13
@@ -10,6 +9,7 @@ import GeoVerif.Properties.C01
 import GeoVerif.Properties.C02
 import GeoVerif.Properties.C05
 import GeoVerif.Properties.C07
+import GeoVerif.Properties.C08
 import GeoVerif.Properties.C03
 import GeoVerif.Properties.C04
 import GeoVerif.Properties.C11
